@@ -162,23 +162,80 @@ def rule_r1(chk, prog):
         if tagv is None:
             continue
         unp = []
-        adv = []
-        slices = []
+        slforms = {}
+        # the cursor and the locals computed from it, as linear forms over
+        # the cursor at the start of the iteration ('@i') and opaque names
+        env = {cursor: {'@i': 1}}
+        fresh = [0]
+
+        def lev(e):
+            if isinstance(e, ast.Constant) and isinstance(
+                    e.value, int) and not isinstance(e.value, bool):
+                return {1: e.value}
+            if isinstance(e, ast.Name):
+                return dict(env.get(e.id, {e.id: 1}))
+            if isinstance(e, ast.BinOp) and isinstance(
+                    e.op, (ast.Add, ast.Sub)):
+                a_, b_ = lev(e.left), lev(e.right)
+                sg = 1 if isinstance(e.op, ast.Add) else -1
+                for k_, v_ in b_.items():
+                    a_[k_] = a_.get(k_, 0) + sg * v_
+                return {k_: v_ for k_, v_ in a_.items() if v_ != 0}
+            raise AnalysisError(
+                f'not a linear index expression: {unparse(e)}')
+
         for n in p.nodes[:-1]:
             for c in node_calls(n):
                 if call_name(c) == 'struct.unpack':
                     unp.append((n, c))
             a = n.ast
-            if n.kind == 'stmt' and isinstance(a, ast.AugAssign) and \
-                    isinstance(a.op, ast.Add) and isinstance(
-                        a.target, ast.Name) and a.target.id == cursor:
-                adv.append(a.value)
             for e in ast.walk(a) if n.kind == 'stmt' else []:
                 if isinstance(e, ast.Subscript) and isinstance(
                         e.value, ast.Name) and e.value.id == state and \
                         isinstance(e.slice, ast.Slice):
-                    slices.append(e)
-        rrec[tagv] = {'unpack': unp, 'adv': adv, 'slices': slices,
+                    if e.slice.lower is None or e.slice.upper is None or \
+                            e.slice.step is not None:
+                        raise AnalysisError(
+                            f'__setstate__: open slice {unparse(e)}')
+                    slforms[id(e)] = (lev(e.slice.lower),
+                                      lev(e.slice.upper))
+            if n.kind != 'stmt':
+                continue
+            if isinstance(a, ast.AugAssign) and isinstance(
+                    a.target, ast.Name) and (a.target.id in env
+                                             or a.target.id == cursor):
+                if not isinstance(a.op, (ast.Add, ast.Sub)):
+                    raise AnalysisError(
+                        f'__setstate__: {unparse(a)} is not a linear update')
+                env[a.target.id] = lev(ast.BinOp(
+                    left=ast.Name(id=a.target.id, ctx=ast.Load()), op=a.op,
+                    right=a.value))
+            elif isinstance(a, ast.Assign):
+                for t in a.targets:
+                    for nm in ast.walk(t):
+                        if not (isinstance(nm, ast.Name) and isinstance(
+                                nm.ctx, ast.Store)):
+                            continue
+                        if isinstance(t, ast.Name):
+                            try:
+                                env[nm.id] = lev(a.value)
+                                continue
+                            except AnalysisError:
+                                if nm.id == cursor:
+                                    raise
+                        if nm.id == cursor:
+                            raise AnalysisError(
+                                '__setstate__: cursor assigned in a tuple')
+                        # opaque value (e.g. an unpacked field): a symbol
+                        # of its own, fresh if it was already in use
+                        if nm.id in env or fresh[0]:
+                            pass
+                        env.pop(nm.id, None)
+        total = dict(env[cursor])
+        total['@i'] = total.get('@i', 0) - 1
+        total = {k_: v_ for k_, v_ in total.items() if v_ != 0}
+        total.setdefault(1, 0)
+        rrec[tagv] = {'unpack': unp, 'total': total, 'sl': slforms,
                       'path': p}
     # ---- obligations
     wtags = {t[0]: t for t in list(wrec) + list(closers)}
@@ -217,25 +274,25 @@ def rule_r1(chk, prog):
                   f'{unparse(rfmt)}', loc=m.loc(uc), nontrivial=True)
         # header slice state[i+1 : i+1+size]
         sl = uc.args[1]
-        ok = isinstance(sl, ast.Subscript) and isinstance(sl.slice, ast.Slice)
+        ok = isinstance(sl, ast.Subscript) and id(sl) in rr['sl']
         if ok:
-            lo = linform(sl.slice.lower, syms)
-            hi = linform(sl.slice.upper, syms)
-            ok = lf_eq(lo, {cursor: 1, 1: 1}) and lf_eq(hi, {cursor: 1,
-                                                          1: 1 + size})
+            lo, hi = rr['sl'][id(sl)]
+            ok = lf_eq(lo, {'@i': 1, 1: 1}) and lf_eq(hi, {'@i': 1,
+                                                        1: 1 + size})
         chk.check('C12.R1', where_r, f'{tagb!r}: header slice {unparse(sl)}',
                   ok, f'header of {rec["fmt"]!r} is {size} bytes at offset '
                   f'i+1; reader slices {unparse(sl)}', loc=m.loc(uc),
                   nontrivial=True)
         # cursor advance
-        total = {1: 0}
-        for a in rr['adv']:
-            f = linform(a, syms)
-            for k, v in f.items():
-                total[k] = total.get(k, 0) + v
+        total = rr['total']
         want = {1: 1 + size}
         if rec['payload']:
-            want['leaflen'] = 1
+            tg_ = un.ast.targets[0] if isinstance(un.ast, ast.Assign) \
+                else None
+            ln_ = tg_.elts[1].id if isinstance(tg_, ast.Tuple) and len(
+                tg_.elts) == 2 and isinstance(tg_.elts[1], ast.Name) \
+                else 'leaflen'
+            want[ln_] = 1
         chk.check('C12.R1', where_r, f'{tagb!r}: cursor advance', lf_eq(
             total, want), f'record occupies {want} bytes, cursor advances by '
                   f'{total}', loc=m.loc(r), nontrivial=True)
@@ -278,17 +335,13 @@ def rule_r1(chk, prog):
                                 a0.func.value, ast.Subscript):
                         dec = a0
                         s2 = a0.func.value
-                        lo = linform(s2.slice.lower, {cursor, lenn})
-                        hi = linform(s2.slice.upper, {cursor, lenn})
-                        okr = lf_eq(lo, {cursor: 1, 1: 1 + size}) and lf_eq(
-                            hi, {cursor: 1, lenn: 1, 1: 1 + size})
+                        if id(s2) not in rr['sl']:
+                            continue
+                        lo, hi = rr['sl'][id(s2)]
+                        okr = lf_eq(lo, {'@i': 1, 1: 1 + size}) and lf_eq(
+                            hi, {'@i': 1, lenn: 1, 1: 1 + size})
                 # advance uses the length name
-                tot2 = {1: 0}
-                for a in rr['adv']:
-                    f = linform(a, {cursor, lenn})
-                    for k, v in f.items():
-                        tot2[k] = tot2.get(k, 0) + v
-                okr = okr and lf_eq(tot2, {lenn: 1, 1: 1 + size})
+                okr = okr and lf_eq(rr['total'], {lenn: 1, 1: 1 + size})
             chk.check('C12.R1', where_r, f'{tagb!r}: payload framing', okr,
                       'reader must take (id, length) in the writer\'s order, '
                       f'decode state[i+{1+size} : i+{1+size}+length] and '
@@ -340,10 +393,7 @@ def rule_r1(chk, prog):
                   'then hash from the frame and pass them as _id/_hash with '
                   'the collected children as _data', loc=m.loc(r),
                   nontrivial=True)
-        adv = {1: 0}
-        for a in rr['adv']:
-            for k, v in linform(a, syms).items():
-                adv[k] = adv.get(k, 0) + v
+        adv = rr['total']
         chk.check('C12.R1', where_r, f'{tagb!r}: cursor advance',
                   lf_eq(adv, {1: 1}), f'closing tag is 1 byte, cursor '
                   f'advances by {adv}', loc=m.loc(r), nontrivial=True)
@@ -409,6 +459,21 @@ def rule_r2(chk, prog):
                 st.value.func.attr == 'pop' and isinstance(
                     st.targets[0], ast.Name):
             pops[unparse(st.value.func.value)] = st.targets[0].id
+    # one stack of pairs: "a, b = <stack>.pop()"
+    pair_mode = False
+    for st in ast.walk(loop):
+        if isinstance(st, ast.Assign) and isinstance(
+                st.value, ast.Call) and isinstance(
+                    st.value.func, ast.Attribute) and \
+                st.value.func.attr == 'pop' and not st.value.args and \
+                unparse(st.value.func.value) == stack_self and isinstance(
+                    st.targets[0], ast.Tuple) and len(
+                        st.targets[0].elts) == 2 and all(
+                            isinstance(e, ast.Name)
+                            for e in st.targets[0].elts) and not pops:
+            pair_mode = True
+            pops = {stack_self: st.targets[0].elts[0].id,
+                    stack_self + '#2': st.targets[0].elts[1].id}
     ok = len(pops) == 2 and stack_self in pops
     chk.check('C12.R2', where, 'two stacks popped', ok,
               f'expected one pop from each of two stacks, found {pops}',
@@ -440,7 +505,8 @@ def rule_r2(chk, prog):
         n_iter += 1
         facts = expand_fact_texts(f, set(p.facts))
         desc = describe_path(p)
-        both = popped >= {stack_self, other_stack}
+        both = popped >= {stack_self, other_stack} or (
+            pair_mode and stack_self in popped)
         chk.check('C12.R2', where, f'{desc}: both stacks popped', both,
                   'an iteration pops only one stack: the walk loses '
                   'lock-step', loc=m.loc(loop), nontrivial=True)
@@ -474,6 +540,13 @@ def rule_r2(chk, prog):
             paired = recvs == sorted([stack_self, other_stack]) and \
                 args.get(stack_self) == f'{a}.data' and \
                 args.get(other_stack) == f'{b}.data'
+            if pair_mode:
+                # zip() pairs the children up (equal length is required
+                # separately: zip would silently truncate)
+                paired = recvs == [stack_self] and args.get(
+                    stack_self) in (f'zip({a}.data, {b}.data)',
+                                    f'zip({a}, {b})',
+                                    f'list(zip({a}.data, {b}.data))')
             ok = leafness and not_leaf and len_eq and paired
             chk.check('C12.R2', where, f'{desc}: list case', ok,
                       'children are pushed without having established: same '
@@ -840,7 +913,7 @@ def rule_r5(chk, prog):
                           nontrivial=True)
                 if exts:
                     c = exts[0][2]
-                    txt = unparse(c.args[0])
+                    txt = unparse(expand_locals(f, c.args[0]))
                     want_rev = (popm == 'pop')
                     has_rev = f'reversed({popv}.data)' in txt
                     plain = f'in {popv}.data' in txt and not has_rev
